@@ -159,7 +159,7 @@ def worker_extra():
 
 
 # ---------------------------------------------------------------------------------------------------------------------
-X_KINDS = ['term', 'rule', 'group', 'tpl', 'alt']
+X_KINDS = ['term', 'rule', 'group', 'tpl', 'alt', 'adj']
 
 if P and P.get('kind') == 'e2e':
     from lark import Lark, Tree as LTree, Token
@@ -177,6 +177,9 @@ if P and P.get('kind') == 'e2e':
             return 'start: x%s B?\nx: A\n%%declare A B\n' % rep, 1
         if XK == 'group':
             return 'start: (A C)%s B?\n%%declare A B C\n' % rep, 2
+        if XK == 'adj':
+            # two repetitions in adjacent rules (both may be empty at the same input position): k occurrences in each
+            return 'start: A%s item\nitem: C%s B\n%%declare A B C\n' % (rep, rep), 1
         if XK == 'alt':
             # a group with alternatives: every occurrence chooses its alternative independently (the input alternates A, C)
             return 'start: (A | C)%s B?\n%%declare A B C\n' % rep, 1
@@ -201,6 +204,8 @@ def _e2e_body(rec, pi, dk, tail):
     ix = unit * k + ([1] if tail else [])
     if XK == 'alt':
         ix = [0 if i % 2 == 0 else 2 for i in range(k)] + ([1] if tail else [])
+    if XK == 'adj':
+        ix = [0] * k + [2] * k + [1]
     tree = exc = None
     if REAL:
         with hs.untraced():
@@ -220,6 +225,14 @@ def _e2e_body(rec, pi, dk, tail):
         want = n <= k <= m
         if want != (exc is None):
             return hs.fail(rec, 'x~%d..%d with %d occurrences: %s' % (n, m, k, 'rejected' if want else 'accepted'), x=XK, parser=PARSER)
+        if exc is None and XK == 'adj':
+            kids = tree.children
+            ok = tree.data == 'start' and len(kids) == k + 1 and all(isinstance(c, Token) and c.type == 'A' for c in kids[:k]) and isinstance(kids[k], LTree) \
+                and kids[k].data == 'item' and len(kids[k].children) == k + 1 and all(isinstance(c, Token) for c in kids[k].children) \
+                and [c.type for c in kids[k].children] == ['C'] * k + ['B']
+            if not ok:
+                return hs.fail(rec, 'adjacent repetitions: children are not %d A, then item(%d C, B)' % (k, k), tree=str(tree)[:300])
+            return True
         if exc is None:
             if XK == 'tpl':
                 kids = tree.children
